@@ -203,6 +203,38 @@ def m_geo(ctx, case):
             if rh != rk or rh[0] != "ok" or not math.isfinite(float(rh[1])) or abs(float(rh[1]) - eh) > max(0.5, 1e-9 * eh):
                 ctx.violation("distance-with-H-differs-from-haversine", pair=P[k], H=Hh, observed=repr(rh[1:])[:60], expected=eh)
         ctx.nontrivial(("geo", la1, lo1, la2, lo2))
+    # whole-degree coordinates held in narrow integer arrays, longitudes in the 0..360 convention in UNSIGNED ones (a gridded
+    # product): a difference taken on the raw inputs (lon1 - lon2) wraps modulo 2**N without any warning
+    Pi = [(int(round(a)), int(round(b)) % 360, int(round(c)), int(round(d)) % 360) for (a, b, c, d) in P]
+    for dt_lat, dt_lon in (("int8", "uint16"), ("int16", "uint16"), ("int32", "uint32"), ("int64", "uint64"), ("int16", "int16")):
+        A = [np.array([q[j] for q in Pi], dtype=(dt_lat if j % 2 == 0 else dt_lon)) for j in range(4)]
+        keep = [a_.copy() for a_ in A]
+        for order in ((0, 1, 2, 3), (2, 3, 0, 1)):
+            rd = call(aero.distance, *[A[j] for j in order])
+            # (bearing is not asked with 8-bit arrays: numpy then computes in float16, whose underflow and 3-digit precision are
+            #  numpy's, not the library's)
+            rb = call(aero.bearing, *[A[j] for j in order]) if dt_lat != "int8" else ("ok", np.zeros(len(Pi)))
+            ctx.ev(2)
+            if rd[0] != "ok" or np.shape(rd[1]) != (len(Pi),) or rb[0] != "ok" or np.shape(rb[1]) != (len(Pi),):
+                ctx.violation("integer-array-call-fails-or-wrong-shape", fn="distance/bearing", dtypes=[dt_lat, dt_lon], observed=[repr(rd[1:])[:80], repr(rb[1:])[:80]])
+                break
+            for k, q in enumerate(Pi):
+                qq = [q[j] for j in order]
+                e = isa.haversine(*[float(v) for v in qq])
+                x = float(rd[1][k])
+                # the library may compute in the precision of the input type: 16-bit inputs give float32-grade results
+                if not (math.isfinite(x) and abs(x - e) <= max(2000.0, 2e-3 * e)):
+                    ctx.violation("distance-differs-from-haversine-for-integer-arrays", pair=qq, dtypes=[dt_lat, dt_lon], observed=x, expected=e)
+                bs = call(aero.bearing, *[float(v) for v in qq])
+                y = float(rb[1][k])
+                if dt_lat != "int8" and bs[0] == "ok" and math.isfinite(float(bs[1])) and e > 10000.0 and abs(abs(q[0]) - 90) > 1 and abs(abs(q[2]) - 90) > 1 \
+                        and isa.haversine(qq[0], qq[1], -qq[2], qq[3] + 180.0) > 10000.0:
+                    dff = abs(y - float(bs[1])) % 360.0
+                    if not (0.0 <= y < 360.0 or y == 360.0) or min(dff, 360.0 - dff) > 0.5:
+                        ctx.violation("bearing-differs-for-integer-arrays", pair=qq, dtypes=[dt_lat, dt_lon], observed=y, with_floats=float(bs[1]))
+        if any(not np.array_equal(a_, k_) for a_, k_ in zip(A, keep)):
+            ctx.violation("caller-array-modified", fn="distance/bearing", dtypes=[dt_lat, dt_lon])
+        ctx.hit("geo_whole_degree_integer_arrays")
     ctx.hit("distance_" + kind, len(P))
     ctx.hit("bearing")
     ctx.hit("array_equals_scalar")
